@@ -379,5 +379,18 @@ if __name__ == '__main__':
         ex = extract()
     except XErr as e:
         print('EXTRACTION FAILED:', e); sys.exit(3)
+    # the generator's own field table (gen/resources/frames.json), kept next to the views of the generated code
+    try:
+        fj = json.load(open(REPO + '/gen/resources/frames.json'))
+        table = {}
+        for S, d in fj.items():
+            ents = []
+            for i, f in enumerate(d['fields']):
+                ver = f.get('version')
+                ents.append(dict(name=f.get('name', str(i)), ty=f['type'], version=[int(x) for x in ver.split('.')] if ver else None))
+            table[S] = ents
+        ex['_frames_json'] = table
+    except (OSError, ValueError, KeyError) as e:
+        print('EXTRACTION FAILED: frames.json:', e); sys.exit(3)
     json.dump(ex, open(sys.argv[2] if len(sys.argv) > 2 else 'extracted.json', 'w'), indent=1)
     print('extracted', sum(len(ex[S]) for S in STRUCTS), 'views of', len(STRUCTS), 'structs')
